@@ -158,6 +158,12 @@ def source_stage(tier, tag, frag, env, pairs, typesf, openf):
         A, B = vlib.ts(frag[a - 1]), vlib.ts(frag[b - 1])
         for op, expr in (("exclude", "Exclude<A, B>"), ("keyof", "keyof A"), ("index", "A[B]")):
             progs.append({"op": op, "ia": a, "ib": b, "src": f"{decls}\ntype A = {A};\ntype B = {B};\ntype T = {expr};\nparse.buildParsers<{{ T: T, A: A, B: B }}>();\n"})
+    # a second computed type in the same compilation (helper names must stay unique across materialisations), and the
+    # operand nested below the root of the computed type (helpers for inner recursion)
+    for a in range(1, n + 1):
+        A = vlib.ts(frag[a - 1])
+        progs.append({"op": "nested", "ia": a, "ib": a, "src": f"{decls}\ntype A = {A};\ntype B = string;\ntype S2 = Exclude<{{ y: L }} | number, number>;\n"
+                      f"type T = Exclude<{{ w: A }} | string, string>;\nparse.buildParsers<{{ T: T, A: A, B: B, S2: S2 }}>();\n"})
     for a in range(1, n + 1):
         A = vlib.ts(frag[a - 1])
         progs.append({"op": "nonnull", "ia": a, "ib": a, "src": f"{decls}\ntype A = {A} | null;\ntype B = null;\ntype T = Exclude<A, null>;\nparse.buildParsers<{{ T: T, A: A, B: B }}>();\n"})
